@@ -101,6 +101,68 @@ theorem conversion (db db' : Db) (c : UpdatePromiseCmd) (t1 t2 : Int) (rs : List
           unfold taskInsertAll_where
           rfl
 
+/-- `TASK_INSERT_ALL` has no conflict clause: when a selected registration has the id of an existing task the statement fails -/
+theorem insert_collision_fails (c : CreateTasksCmd) :
+    ∀ (cbs : List CallbackRow) (tasks : List TaskRow) (seq : Nat),
+      (∃ cb ∈ cbs, ∃ t ∈ tasks, t.id = cb.id) → ∃ e, insertTasksFrom (defs d) c cbs tasks seq = .error e := by
+  intro cbs
+  induction cbs with
+  | nil => intro tasks seq h; obtain ⟨cb, hcb, _⟩ := h; cases hcb
+  | cons x rest ih =>
+    intro tasks seq h
+    simp only [insertTasksFrom]
+    split
+    · exact ⟨_, rfl⟩
+    · rename_i hany
+      obtain ⟨cb, hcb, t, ht, hid⟩ := h
+      have hrest : cb ∈ rest := by
+        rcases List.mem_cons.mp hcb with rfl | hr
+        · exfalso
+          apply hany
+          rw [List.any_eq_true]
+          exact ⟨t, ht, by simp [defs, taskInsertAll_row, hid]⟩
+        · exact hr
+      obtain ⟨e, he⟩ := ih (tasks ++ [(defs d).taskInsertAll_row c x (seq + 1)]) (seq + 1) ⟨cb, hrest, t, List.mem_append_left _ ht, hid⟩
+      rw [he]
+      exact ⟨e, rfl⟩
+
+/-- **Finding F2 as a theorem about the model** (known finding of C11; the ids that collide are exhibited by
+    `callbackId_not_injective` below).  When a registration on the promise has the id of a task that exists already, the
+    completion block NEVER commits — whatever the completion, by whichever path (request, lazy time-out, sweep): the
+    promise cannot leave pending, and (all or nothing) no registration is dropped either. -/
+theorem colliding_completion_never_commits_F2 (db db' : Db) (c : UpdatePromiseCmd) (t1 t2 : Int) (rs : List Res)
+    (cb : CallbackRow) (hcb : cb ∈ db.callbacks) (hp : cb.promiseId = c.id) (t : TaskRow) (ht : t ∈ db.tasks) (hid : t.id = cb.id) :
+    db.execTx (defs d) [.updatePromise c, .completeTasks ⟨c.id, t1⟩, .createTasks ⟨c.id, t2⟩, .deleteCallbacks ⟨c.id⟩] ≠ .ok (db', rs) := by
+  intro h
+  obtain ⟨db1, r1, rs1, e1, x1, _⟩ := execTx_cons_ok _ _ _ _ _ _ h
+  obtain ⟨db2, r2, rs2, e2, x2, _⟩ := execTx_cons_ok _ _ _ _ _ _ x1
+  obtain ⟨db3, r3, rs3, e3, _, _⟩ := execTx_cons_ok _ _ _ _ _ _ x2
+  have f1 := exec_frame _ _ _ _ _ e1
+  have f2 := exec_frame _ _ _ _ _ e2
+  have c1 : db1.callbacks = db.callbacks := f1.2.1 rfl
+  have c2 : db2.callbacks = db1.callbacks := f2.2.1 rfl
+  have t1' : db1.tasks = db.tasks := (f1.2.2.2.2 rfl).1
+  -- completing the promise's own tasks keeps every task id
+  have t2' : ∃ u ∈ db2.tasks, u.id = cb.id := by
+    simp only [Db.exec] at e2
+    injection e2 with e2; injection e2 with hdb2 _
+    rw [← hdb2]
+    simp only
+    rw [t1']
+    by_cases hw : (defs d).taskCompleteByRootId_where ⟨c.id, t1⟩ t = true
+    · exact ⟨(defs d).taskCompleteByRootId_set ⟨c.id, t1⟩ t, (mem_updateWhere _ _ _ _).mpr ⟨t, ht, .inl ⟨hw, rfl⟩⟩,
+        by simp [defs, taskCompleteByRootId_set, hid]⟩
+    · have hw' : (defs d).taskCompleteByRootId_where ⟨c.id, t1⟩ t = false := by simpa using hw
+      exact ⟨t, (mem_updateWhere _ _ _ _).mpr ⟨t, ht, .inr ⟨hw', rfl⟩⟩, hid⟩
+  obtain ⟨u, hu, huid⟩ := t2'
+  simp only [Db.exec] at e3
+  have hsel : cb ∈ (db2.callbacks.filter ((defs d).taskInsertAll_where ⟨c.id, t2⟩)).mergeSort cbOrdLe := by
+    rw [List.mem_mergeSort, List.mem_filter, c2, c1]
+    exact ⟨hcb, by simp [defs, taskInsertAll_where, hp]⟩
+  obtain ⟨e, he⟩ := insert_collision_fails d ⟨c.id, t2⟩ _ db2.tasks db2.seqT ⟨cb, hsel, u, hu, huid⟩
+  rw [he] at e3
+  cases e3
+
 /-- **Invariant, every reachable state.** From an empty database, along ANY run — every interleaving of
     registrations with every completion path (explicit, lazy time-out, sweep), both orders inside one
     batch, every failure, every crash point — every stored registration awaits a promise that exists and
